@@ -35,7 +35,7 @@ def gen(chk, tier):
     q = tier == "quick"
     for field, m in (("p", P), ("n", N)):
         elems = critical_elements(rng, m, 60 if q else 400)
-        unary = ["square", "invert", "set", "one"] + (["opp", "divstepinvert"] if field == "p" else [])
+        unary = ["square", "invert", "set", "one", "opp"] + (["divstepinvert"] if field == "p" else [])
         for a in elems if not q else elems[:40]:
             for fn in unary:
                 g.one("%s_%s" % (field, fn), "fiat.op", field=field, fn=fn, a=b32(a),
@@ -106,6 +106,11 @@ def gen(chk, tier):
                           recv=b32(rng.randrange(m)))
         for L in (0, 1, 31, 33, 64):
             g.one("%s_setbytes_len" % field, "fiat.setbytes", field=field, v=rb(rng, L), recv=b32(5))
+    # the generated nonzero tests on raw limbs: zero, one bit in each limb, high / low halves only
+    nzv = [0, 1, 1 << 63, 1 << 64, 1 << 127, 1 << 128, 1 << 191, 1 << 192, 1 << 255, T256 - 1, ((1 << 32) - 1) << 32,
+           (1 << 32) << 128] + limb_structured(rng, 10 if q else 200)
+    for v in nzv:
+        g.one("nonzero", "fiat.nonzero", v=b32(v))
     # MultiSelect: every index incl. 0 and out of range
     for width in (1, 15, 63):
         tab = [b32(rng.randrange(P)) for _ in range(width)]
